@@ -19,6 +19,9 @@ from ..rustscan import ExtractError, enum_variants, read, mask, block_after, mat
 BOOL_FEATURES = ["use_fetch", "set_ops_distinct", "except_all", "intersect_all", "has_concat_function", "stars_in_group", "supports_distinct_on",
                  "supports_zero_columns", "prefers_subquery_parentheses_shorthand", "requires_order_by_in_window_function",
                  "string_literal_backslash_escape"]     # since fix d2c1667: backslashes of string literals are doubled where the engine reads escapes
+# methods that exist only once a proposed repair is in the tree (fixes/C07-N6, fixes/C07-N3): absent = the trait default the
+# repair would add (the keyword / the literal is emitted for every dialect)
+OPTIONAL_BOOL = {"with_recursive_keyword": True, "has_interval_literal": True}
 OTHER_FEATURES = ["ident_quote", "ident_quoting_style", "column_exclude", "limit_for_bare_offset"]
 # trait methods that are not boolean/char/enum feature flags (algorithms with arguments): deliberately not translated
 NOT_FEATURES = ["interval_quoting_style", "translate_prql_date_format", "translate_chrono_item", "translate_sql_array"]
@@ -113,7 +116,7 @@ def extract_dialects():
     # trait defaults
     s, e = block_after(src, m, r"trait\s+DialectHandler\b[^{]*\{")
     tfns = fns_of_block(src, m, s, e)
-    known = set(BOOL_FEATURES + OTHER_FEATURES + NOT_FEATURES)
+    known = set(BOOL_FEATURES + OTHER_FEATURES + NOT_FEATURES + list(OPTIONAL_BOOL))
     for f in tfns:
         if f not in known:
             raise ExtractError("DialectHandler has a method the translator does not know: %s" % f)
@@ -121,6 +124,8 @@ def extract_dialects():
         if f not in tfns:
             raise ExtractError("DialectHandler lost its method %s" % f)
     defaults = {f: simple_value(f, *tfns[f]) for f in BOOL_FEATURES + OTHER_FEATURES}
+    for f, dv in OPTIONAL_BOOL.items():
+        defaults[f] = simple_value(f, *tfns[f]) if f in tfns else ("bool", dv)
     # impls
     impls = {}
     for mi in re.finditer(r"impl\s+DialectHandler\s+for\s+([A-Za-z]+)\s*\{", m):
@@ -153,7 +158,7 @@ def extract_dialects():
     feats = {}
     for v, n in zip(variants, names):
         d = {}
-        for f in BOOL_FEATURES:
+        for f in BOOL_FEATURES + list(OPTIONAL_BOOL):
             k, x = resolve(handler[v], f)
             if k != "bool":
                 raise ExtractError("%s of %s is not a bool" % (f, v))
@@ -177,6 +182,17 @@ def extract_dialects():
             raise ExtractError("limit_for_bare_offset of %s is not an integer spelling: %r" % (v, x))
         d["limit_for_bare_offset"] = x
         feats[n] = d
+    # which of the proposed repairs are in the source (read from the impl blocks themselves, not from the resolved table):
+    #   n3: has_interval_literal() = false for SQLite and MsSql      n5: BigQuery overrides except_all() with false
+    #   n6: MsSql overrides with_recursive_keyword() with false      n8: Redshift no longer overrides supports_zero_columns() with true
+    def ov(struct, f):
+        return impls.get(struct, {}).get(f)
+    fixes = {
+        "n3": ov("SQLiteDialect", "has_interval_literal") == ("bool", False) and ov("MsSqlDialect", "has_interval_literal") == ("bool", False),
+        "n5": ov("BigQueryDialect", "except_all") == ("bool", False),
+        "n6": ov("MsSqlDialect", "with_recursive_keyword") == ("bool", False),
+        "n8": ov("RedshiftDialect", "supports_zero_columns") != ("bool", True),
+    }
     # the documented set-operation matrix (trailing comment of the file)
     mt = re.search(r"\| SQL construct\s*\|([^\n]*)\n\|[-| ]*\n((?:\|[^\n]*\n)+)", src)
     if not mt:
@@ -215,7 +231,10 @@ def extract_dialects():
         if not mp or not re.fullmatch(r"Some\([A-Za-z]+\)", body.strip()):
             raise ExtractError("operator_from_name: arm %r => %r" % (pat, body))
         natives.append(mp.group(1))
-    return {"variants": variants, "names": names, "handler": handler, "feats": feats, "matrix": matrix, "natives": natives}
+    # n11: translate_operator parenthesises an operand whose text starts with `-` behind template text that ends in `-`
+    ops_rs = read("prqlc/prqlc/src/sql/operators.rs")
+    fixes["n11"] = bool(re.search(r"text\.ends_with\('-'\)\s*&&\s*source\.starts_with\('-'\)", "".join(ops_rs.split("\n"))))
+    return {"variants": variants, "names": names, "handler": handler, "feats": feats, "matrix": matrix, "natives": natives, "fixes": fixes}
 
 
 def extract_stdsql(names):
@@ -291,19 +310,24 @@ def generate():
     v += "  set_ops_distinct : bool; except_all : bool; intersect_all : bool; has_concat_function : bool; stars_in_group : bool;\n"
     v += "  supports_distinct_on : bool; supports_zero_columns : bool; prefers_paren : bool; requires_order_by_in_window : bool;\n"
     v += "  bare_offset_limit : option (list N) (* limit_for_bare_offset: spelling of the LIMIT emitted with a bare OFFSET *);\n"
-    v += "  backslash_escape : bool (* string_literal_backslash_escape: backslashes of '...' literals are emitted doubled *) }.\n\n"
+    v += "  backslash_escape : bool (* string_literal_backslash_escape: backslashes of '...' literals are emitted doubled *);\n"
+    v += "  recursive_keyword : bool (* with_recursive_keyword, true when the method does not exist *); interval_literal : bool (* has_interval_literal, likewise *) }.\n\n"
     v += "(* (dialect name, features after resolving handler(), trait defaults and overrides) in enum order *)\n"
     rows = []
     for n in info["names"]:
         f = info["feats"][n]
-        rows.append("(%s (* %s *), mkFeat %s %d %s %d %s %s %s %s %s %s %s %s %s %s %s)" % (
+        rows.append("(%s (* %s *), mkFeat %s %d %s %d %s %s %s %s %s %s %s %s %s %s %s %s %s)" % (
             codes(n), n, coq_bool(f["use_fetch"]), ord(f["ident_quote"]), coq_bool(f["always_quoted"]), f["column_exclude"],
             coq_bool(f["set_ops_distinct"]), coq_bool(f["except_all"]), coq_bool(f["intersect_all"]), coq_bool(f["has_concat_function"]),
             coq_bool(f["stars_in_group"]), coq_bool(f["supports_distinct_on"]), coq_bool(f["supports_zero_columns"]),
             coq_bool(f["prefers_subquery_parentheses_shorthand"]), coq_bool(f["requires_order_by_in_window_function"]),
             "None" if f["limit_for_bare_offset"] is None else "(Some %s)" % codes(f["limit_for_bare_offset"]),
-            coq_bool(f["string_literal_backslash_escape"])))
+            coq_bool(f["string_literal_backslash_escape"]), coq_bool(f["with_recursive_keyword"]), coq_bool(f["has_interval_literal"])))
     v += "Definition feats : list (list N * feat) :=\n  [ " + ";\n    ".join(rows) + " ].\n\n"
+    fx = info["fixes"]
+    v += "(* which proposed repairs of open findings are in the source (read off the impl blocks / operators.rs, not off the table above) *)\n"
+    v += "Record fixes := mkFixes { fix_n3 : bool; fix_n5 : bool; fix_n6 : bool; fix_n8 : bool; fix_n11 : bool }.\n"
+    v += "Definition head_fixes : fixes := mkFixes %s %s %s %s %s.\n\n" % tuple(coq_bool(fx[k]) for k in ("n3", "n5", "n6", "n8", "n11"))
     v += "(* operators of std.sql.prql: (dialect module, [] = root; operator path; body is null; body: Some text chunk | None = hole) *)\n"
     rows = []
     for mod, op, isnull, glue in info["ops"]:
